@@ -1018,18 +1018,20 @@ def run(tier):
                                                                        for l in f["lines"]] for f in recs[1]["files"]}, "observed": recs[1]["obs"]})
     for r in recs:
         ck.nontrivial.add("rec:" + json.dumps(r["files"], sort_keys=True))
-    validate(ck, recs, "traces")
-    # binding demonstration: one corrupted field must be rejected
+    rejected = validate(ck, recs, "traces")
+    # binding demonstration: one corrupted field must be rejected (on records the specification accepted as they are)
     ck.stage("binding demonstration")
-    good = [r for r in recs if not r["obs"]["abort"] and r["obs"]["blocks"]][:4]
-    if not good:
-        raise c.MachineryError("no record with molecule types for the binding demonstration")
-    bad = json.loads(json.dumps(good))
-    bad[0]["obs"]["blocks"] = bad[0]["obs"]["blocks"][:-1]
-    rej = validate(ck, bad, "corrupt", expect_reject=True)
-    if set(rej) != {1}:
-        raise c.MachineryError("binding demonstration failed: rejected %s instead of exactly the corrupted record" % (rej,))
-    ck.extra["binding_demo"] = "record with one molecule type removed from the observation rejected (%s); 3 untouched records accepted" % rej[1]
+    good = [r for i, r in enumerate(recs, 1) if i not in rejected and not r["obs"]["abort"] and r["obs"]["blocks"]][:4]
+    if not good and not ck.violations:
+        raise c.MachineryError("no accepted record with molecule types for the binding demonstration")
+    if good:
+        bad = json.loads(json.dumps(good))
+        bad[0]["obs"]["blocks"] = bad[0]["obs"]["blocks"][:-1]
+        rej = validate(ck, bad, "corrupt", expect_reject=True)
+        if set(rej) != {1}:
+            raise c.MachineryError("binding demonstration failed: rejected %s instead of exactly the corrupted record" % (rej,))
+        ck.extra["binding_demo"] = "record with one molecule type removed from the observation rejected (%s); %d untouched records accepted" % (
+            rej[1], len(good) - 1)
     ck.exhaustive = True
     return ck.finish()
 
